@@ -9,7 +9,7 @@ use crate::model::{MV, json};
 use proptest::prelude::*;
 use serde::{Deserialize, Serialize};
 
-pub const RULE: &str = "generated scripts of 1-10 statements (bindings, `output name`, `output name = expr`, expression statements, comments; 0-6 output declarations incl. repeated names; values computable by the harness: literals, #k, inputs.k, references, arithmetic, lists and records of these) with an optional failing statement at any position (unknown identifier, type error, call of a non-function, rebinding, output of an unbound name, parse error) x input sets (optional piped stdin and 0-4 --input flags; objects and non-objects; overlapping keys; occasionally invalid JSON or invalid UTF-8, also on stdin) x invocation modes (file path, inline source, -e with the source on stdin, each with or without -o FILE), run in the real release binary and compared with a reference model of merging, bind-once evaluation, outputs and exit status. Fixed scenarios add: one key given two or three times with object values of different field sets (the later object replaces the earlier one as a whole), scripts with tokens / strings / comments of 200 to 20 000 bytes in every mode, and slow producers (the piped document or -e script arrives 0.4-1.5 s late, in two pieces; also 1 in 40 random cases). Non-trivial = at least one output declaration together with overlapping input keys or a failing statement; distinct by (script, inputs, mode).";
+pub const RULE: &str = "generated scripts of 1-10 statements (bindings, `output name`, `output name = expr`, expression statements, comments; 0-6 output declarations incl. repeated names; values computable by the harness: literals, #k, inputs.k, references, arithmetic, lists and records of these) with an optional failing statement at any position (unknown identifier, type error, call of a non-function, rebinding, output of an unbound name, parse error) x input sets (optional piped stdin and 0-4 --input flags; objects and non-objects; overlapping keys; occasionally invalid JSON or invalid UTF-8, also on stdin) x invocation modes (file path, inline source, -e with the source on stdin, each with or without -o FILE), run in the real release binary and compared with a reference model of merging, bind-once evaluation, outputs and exit status. `output constants` / `output inf` / `output infinity` are declared like built-in names; a third of the scripts have no final line break, and string literals contain backslash-letter pairs (Blots has no escape sequences). Fixed scenarios add: one key given two or three times with object values of different field sets (the later object replaces the earlier one as a whole), scripts with tokens / strings / comments of 200 to 20 000 bytes in every mode, and slow producers (the piped document or -e script arrives 0.4-1.5 s late, in two pieces; also 1 in 40 random cases). Non-trivial = at least one output declaration together with overlapping input keys or a failing statement; distinct by (script, inputs, mode).";
 pub const ASSUMPTIONS: &[&str] = &[
     "only finite numbers are used (JSON cannot carry infinities)",
     "the failing statement kinds are those the model can predict; a parse error anywhere fails the whole script before any statement runs",
@@ -68,6 +68,9 @@ pub struct Case {
     /// the producer of stdin is slow: (bytes written at once, pause in ms before the rest)
     #[serde(default)]
     pub slow_stdin: Option<(u16, u16)>,
+    /// the script text does not end in a line break (a one-statement script is then one line)
+    #[serde(default)]
+    pub no_final_newline: bool,
 }
 
 pub struct Cli;
@@ -171,7 +174,17 @@ impl Model {
                 Stmt::Comment(_) => Ok(()),
                 Stmt::Fail(_, _) => Err(()),
                 Stmt::OutputBuiltin(n) => {
-                    let v = MV::Rec(vec![("__blots_function".to_string(), MV::Str(n.clone()))]);
+                    // `output constants` / `output inf`: names that always have a value without being bindings
+                    let v = match n.as_str() {
+                        "constants" => MV::Rec(vec![
+                            ("pi".to_string(), num(std::f64::consts::PI)),
+                            ("e".to_string(), num(std::f64::consts::E)),
+                            ("max_value".to_string(), num(f64::MAX)),
+                            ("min_value".to_string(), num(f64::MIN_POSITIVE)),
+                        ]),
+                        "inf" | "infinity" => num(f64::INFINITY),
+                        _ => MV::Rec(vec![("__blots_function".to_string(), MV::Str(n.clone()))]),
+                    };
                     if let Some(slot) = self.outputs.iter_mut().find(|(k, _)| k == n) {
                         slot.1 = v;
                     } else {
@@ -220,7 +233,7 @@ impl Check for Cli {
         "cli"
     }
     fn run(&self, c: &Case, ctx: &mut Ctx) -> Outcome {
-        let script: String = c.stmts.iter().map(stmt_src).collect::<Vec<_>>().join("\n") + "\n";
+        let script: String = c.stmts.iter().map(stmt_src).collect::<Vec<_>>().join("\n") + if c.no_final_newline { "" } else { "\n" };
         let use_stdin_inputs = c.mode != 2;
         let merged = merge(&c.inputs, use_stdin_inputs);
         let mut model = Model { inputs: merged.clone().unwrap_or_default(), env: vec![], outputs: vec![] };
@@ -359,7 +372,7 @@ fn lit(t: &mut Tape) -> MV {
         0 => num(1.0),
         1 => num(-2.5),
         2 => num(1e21),
-        3 => MV::Str(["hi", "", "é", "a b"][t.pick(4)].into()),
+        3 => MV::Str(["hi", "", "é", "a b", "a\\nb", "C:\\new\\table", "tab\\there"][t.pick(7)].into()),
         4 => MV::Bool(t.pick(2) == 0),
         5 => MV::Null,
         6 => MV::List(vec![num(1.0), num(2.0)]),
@@ -494,15 +507,16 @@ fn case(tape: &[u16]) -> Case {
             }
             4 | 5 if !bound.is_empty() => stmts.push(Stmt::Output(bound[t.pick(bound.len())].clone())),
             6 => stmts.push(Stmt::Expr(val(&mut t, &bound, 2))),
-            7 if t.chance(1, 3) => stmts.push(Stmt::OutputBuiltin(["sum", "max", "to_string"][t.pick(3)].into())),
+            7 if t.chance(1, 3) => stmts.push(Stmt::OutputBuiltin(["sum", "max", "to_string", "constants", "inf", "infinity"][t.pick(6)].into())),
             7 => stmts.push(Stmt::Comment(["note", "output fake = 1", "{\"json\": true}"][t.pick(3)].into())),
             _ => stmts.push(Stmt::Output(NAMES[t.pick(NAMES.len())].to_string())),
         }
     }
     let precreate = out_file && t.chance(1, 2);
+    let no_final_newline = t.chance(1, 3);
     // now and then the piped document arrives late and in two pieces
     let slow_stdin = if t.chance(1, 40) { Some((t.pick(12) as u16, [350u16, 600, 1100][t.pick(3)])) } else { None };
-    Case { stmts, inputs, mode, out_file, precreate, slow_stdin }
+    Case { stmts, inputs, mode, out_file, precreate, slow_stdin, no_final_newline }
 }
 
 pub fn run(ctx: &mut Ctx) {
@@ -510,12 +524,12 @@ pub fn run(ctx: &mut Ctx) {
     let obj = |pairs: Vec<(&str, MV)>| MV::Rec(pairs.into_iter().map(|(k, v)| (k.to_string(), v)).collect());
     let inp = |stdin: bool, v: MV| Input { stdin, text: json::write(&v, 0), valid: Some(v), bad_utf8: false };
     let fixed = vec![
-        Case { stmts: vec![Stmt::OutputBind("p".into(), Val::Add(Box::new(Val::Hash("a".into())), Box::new(Val::InputsDot("b".into()))))], inputs: vec![inp(true, obj(vec![("a", num(1.0)), ("b", num(2.0))])), inp(false, obj(vec![("b", num(10.0))])), inp(false, obj(vec![("a", num(5.0))]))], mode: 0, out_file: false, precreate: false, slow_stdin: None },
-        Case { stmts: vec![Stmt::OutputBind("p".into(), Val::List(vec![Val::Hash("value_1".into()), Val::Hash("value_2".into()), Val::Hash("value_3".into())]))], inputs: vec![inp(true, num(3.0)), inp(false, MV::Str("x".into())), inp(false, obj(vec![("value_total", num(1.0))])), inp(false, MV::Null)], mode: 1, out_file: false, precreate: false, slow_stdin: None },
-        Case { stmts: vec![Stmt::OutputBind("p".into(), Val::Hash("value_1".into()))], inputs: vec![inp(false, obj(vec![("value_1", MV::Str("a".into()))])), inp(false, num(7.0))], mode: 0, out_file: true, precreate: true, slow_stdin: None },
-        Case { stmts: vec![Stmt::Bind("p".into(), Val::Lit(num(1.0))), Stmt::Output("p".into()), Stmt::Output("q".into())], inputs: vec![], mode: 2, out_file: false, precreate: false, slow_stdin: None },
-        Case { stmts: vec![Stmt::OutputBind("p".into(), Val::Lit(num(1.0))), Stmt::Fail("nope".into(), false)], inputs: vec![], mode: 0, out_file: true, precreate: true, slow_stdin: None },
-        Case { stmts: vec![], inputs: vec![], mode: 1, out_file: false, precreate: false, slow_stdin: None },
+        Case { stmts: vec![Stmt::OutputBind("p".into(), Val::Add(Box::new(Val::Hash("a".into())), Box::new(Val::InputsDot("b".into()))))], inputs: vec![inp(true, obj(vec![("a", num(1.0)), ("b", num(2.0))])), inp(false, obj(vec![("b", num(10.0))])), inp(false, obj(vec![("a", num(5.0))]))], mode: 0, out_file: false, precreate: false, slow_stdin: None, no_final_newline: false },
+        Case { stmts: vec![Stmt::OutputBind("p".into(), Val::List(vec![Val::Hash("value_1".into()), Val::Hash("value_2".into()), Val::Hash("value_3".into())]))], inputs: vec![inp(true, num(3.0)), inp(false, MV::Str("x".into())), inp(false, obj(vec![("value_total", num(1.0))])), inp(false, MV::Null)], mode: 1, out_file: false, precreate: false, slow_stdin: None, no_final_newline: false },
+        Case { stmts: vec![Stmt::OutputBind("p".into(), Val::Hash("value_1".into()))], inputs: vec![inp(false, obj(vec![("value_1", MV::Str("a".into()))])), inp(false, num(7.0))], mode: 0, out_file: true, precreate: true, slow_stdin: None, no_final_newline: false },
+        Case { stmts: vec![Stmt::Bind("p".into(), Val::Lit(num(1.0))), Stmt::Output("p".into()), Stmt::Output("q".into())], inputs: vec![], mode: 2, out_file: false, precreate: false, slow_stdin: None, no_final_newline: false },
+        Case { stmts: vec![Stmt::OutputBind("p".into(), Val::Lit(num(1.0))), Stmt::Fail("nope".into(), false)], inputs: vec![], mode: 0, out_file: true, precreate: true, slow_stdin: None, no_final_newline: false },
+        Case { stmts: vec![], inputs: vec![], mode: 1, out_file: false, precreate: false, slow_stdin: None, no_final_newline: false },
     ];
     let mut fixed = fixed;
     // the same key given twice with object values: the later object replaces the earlier one
@@ -528,21 +542,27 @@ pub fn run(ctx: &mut Ctx) {
     for (first_on_stdin, docs) in [(true, vec![&cfg1, &cfg2]), (false, vec![&cfg1, &cfg2]), (false, vec![&cfg1, &cfg3]), (true, vec![&cfg2, &cfg1, &cfg3]), (false, vec![&cfg4, &cfg5]), (true, vec![&cfg4, &cfg5, &cfg1]), (false, vec![&cfg1, &cfg2, &cfg1])] {
         for mode in [0u8, 1] {
             let inputs: Vec<Input> = docs.iter().enumerate().map(|(i, d)| inp(first_on_stdin && i == 0, (*d).clone())).collect();
-            fixed.push(Case { stmts: show(), inputs, mode, out_file: false, precreate: false, slow_stdin: None });
+            fixed.push(Case { stmts: show(), inputs, mode, out_file: false, precreate: false, slow_stdin: None, no_final_newline: false });
         }
     }
     // slow producers: the piped inputs (or the -e script) arrive late and in pieces
     for (at, ms) in [(0u16, 400u16), (1, 400), (5, 700), (3, 1200), (0, 1500)] {
         for mode in [0u8, 1, 2] {
-            fixed.push(Case { stmts: vec![Stmt::OutputBind("p".into(), Val::List(vec![Val::Hash("a".into()), Val::InputsDot("b".into())]))], inputs: vec![inp(true, obj(vec![("a", num(1.0)), ("b", MV::Str("x".into()))]))], mode, out_file: false, precreate: false, slow_stdin: Some((at, ms)) });
+            fixed.push(Case { stmts: vec![Stmt::OutputBind("p".into(), Val::List(vec![Val::Hash("a".into()), Val::InputsDot("b".into())]))], inputs: vec![inp(true, obj(vec![("a", num(1.0)), ("b", MV::Str("x".into()))]))], mode, out_file: false, precreate: false, slow_stdin: Some((at, ms)), no_final_newline: false });
+        }
+    }
+    // one-line scripts (no line break at all) whose strings and comments hold a backslash followed by a letter
+    for mode in [0u8, 1, 2] {
+        for text in ["a\\nb", "C:\\new\\table", "\\n", "x\\ny\\nz"] {
+            fixed.push(Case { stmts: vec![Stmt::OutputBind("p".into(), Val::List(vec![Val::Lit(MV::Str(text.into())), Val::Lit(num(1.0))]))], inputs: vec![], mode, out_file: false, precreate: false, slow_stdin: None, no_final_newline: true });
         }
     }
     // long scripts and long tokens in every invocation mode (an inline script is never a path)
     for n in [200usize, 254, 255, 256, 257, 300, 1000, 4094, 4095, 4096, 4097, 5000, 20000] {
         for mode in [0u8, 1, 2] {
-            fixed.push(Case { stmts: vec![Stmt::OutputBind("p".into(), Val::Lit(MV::Str("a".repeat(n))))], inputs: vec![], mode, out_file: false, precreate: false, slow_stdin: None });
-            fixed.push(Case { stmts: vec![Stmt::Bind(format!("n{}", "a".repeat(n)), Val::Lit(num(1.0))), Stmt::Output(format!("n{}", "a".repeat(n)))], inputs: vec![], mode, out_file: n % 2 == 0, precreate: false, slow_stdin: None });
-            fixed.push(Case { stmts: vec![Stmt::Comment("c".repeat(n)), Stmt::OutputBind("p".into(), Val::Lit(num(1.0)))], inputs: vec![], mode, out_file: false, precreate: false, slow_stdin: None });
+            fixed.push(Case { stmts: vec![Stmt::OutputBind("p".into(), Val::Lit(MV::Str("a".repeat(n))))], inputs: vec![], mode, out_file: false, precreate: false, slow_stdin: None, no_final_newline: false });
+            fixed.push(Case { stmts: vec![Stmt::Bind(format!("n{}", "a".repeat(n)), Val::Lit(num(1.0))), Stmt::Output(format!("n{}", "a".repeat(n)))], inputs: vec![], mode, out_file: n % 2 == 0, precreate: false, slow_stdin: None, no_final_newline: false });
+            fixed.push(Case { stmts: vec![Stmt::Comment("c".repeat(n)), Stmt::OutputBind("p".into(), Val::Lit(num(1.0)))], inputs: vec![], mode, out_file: false, precreate: false, slow_stdin: None, no_final_newline: false });
         }
     }
     ctx.run_enum(&Cli, fixed.into_iter().filter(|c| !c.stmts.is_empty()), false);
